@@ -571,7 +571,12 @@ theorem mapRoots_noNR (umap : TreeMap Int Int) (r : Roots) :
 `_request_reordering` was never called, and the reordering signal is not the error of the call -/
 theorem loadPickle_nq (f : PickleFile) (levels : Bool) (m : Mgr) (hc : m.ctx = false) :
     NQ m (loadPickle f levels m) := by
-  unfold loadPickle
+  rw [loadPickle_eq]
+  split
+  · exact NQ.refl_err hc _ (by simp)
+  split
+  · exact NQ.refl_err hc _ (by simp)
+  unfold loadPickleBody
   split
   · next heq => exact ((loadVars_nq levels _ _ _ m hc).of_eq heq).reErr
   next heq =>
@@ -585,7 +590,13 @@ theorem loadPickle_nq (f : PickleFile) (levels : Bool) (m : Mgr) (hc : m.ctx = f
 /-- `BDD.load` (pickle) never looks at `_last_len` -/
 theorem loadPickle_LL (f : PickleFile) (levels : Bool) (m : Mgr) (l : Option Nat) (hc : m.ctx = false) :
     loadPickle f levels (m.withLL l) = llOut l (loadPickle f levels m) := by
-  unfold loadPickle
+  rw [loadPickle_eq, loadPickle_eq]
+  split
+  · rfl
+  show (if (levels && !levelsCompatible m.tbl f.vars) = true then _ else _) = _
+  split
+  · rfl
+  unfold loadPickleBody
   rw [loadVars_LL levels _ _ _ m l hc]
   have c1 := loadVars_nq levels f.vars.length f.vars [] m hc
   generalize loadVars levels f.vars.length f.vars [] m = res1 at c1 ⊢
@@ -719,11 +730,12 @@ theorem pickle_load_enabled (f : PickleFile) (levels : Bool)
     (hwf : PickleWF f) (hr : RootsResolvable f)
     (lm : List (Nat × Nat)) (m1 : Mgr)
     (hv : loadVars levels f.vars.length f.vars [] m = (.ok lm, m1))
-    (hg : Contig m1.tbl) :
+    (hg : Contig m1.tbl)
+    (hperm : levels = true → levelsPermutation f.vars = true) :
     ∃ roots' m', loadPickle f levels m = (.ok roots', m') ∧ Inv m' ∧ DmpVarsBij m'.tbl ∧
       Contig m'.tbl ∧ m'.ctx = false ∧ (∀ u n, m.tbl.node? u = some n → m'.tbl.node? u = some n) ∧
       LoadedFrom f m'.tbl roots' ∧ m'.lastLen = m.lastLen ∧ m'.fireIn = m.fireIn := by
-  obtain ⟨roots', m', he, h1, h2, h3, h4, h5, h6⟩ := pickle_load f levels m hI hb hc hwf hr lm m1 hv hg
+  obtain ⟨roots', m', he, h1, h2, h3, h4, h5, h6⟩ := pickle_load f levels m hI hb hc hwf hr lm m1 hv hg hperm
   have hn := loadPickle_never_reorders f levels m hc
   rw [he] at hn
   exact ⟨roots', m', he, h1, h2, h3, h4, h5, h6, hn.2.2.1, hn.2.2.2.1⟩
